@@ -16,10 +16,10 @@ def S(pid, base, fields, default=None, debug=False, name=None):
     return s
 
 
-def F(name, ty, ranges, array=None, access="rw"):
+def F(name, ty, ranges, array=None, access="rw", style="std"):
     if isinstance(ranges, tuple):
         ranges = [ranges]
-    return Field(name, ty, list(ranges), array=array, access=access)
+    return Field(name, ty, list(ranges), array=array, access=access, style=style)
 
 
 def contiguous_struct(pid, base, placements, access="rw", default=None):
@@ -148,6 +148,14 @@ def programs_arrays(tier):
         F("t", T_bool(), (47, 1), array=None),
         F("u", T_bool(), (45, 1), array=(2, 1)),
     ])], props=("C03", "C11", "C16")))
+    # the attribute grammar: argument order and the legacy `stride: n` spelling must not matter
+    progs.append(Program("arsty", structs=[S("arsty", 32, [
+        F("low", T_u(4), (0, 4), array=(3, 8), style="stride_first"),            # #[bits(stride = 8, 0..=3, rw)]
+        F("flag", T_bool(), (5, 1), array=(3, 8), style="stride_first_colon"),   # #[bit(stride: 8, 5, rw)]
+        F("mid", T_u(2), (6, 2), array=(3, 8), style="stride_mid"),              # #[bits(6..=7, stride = 8, rw)]
+        F("acc", T_u(4), (24, 4), style="access_first"),                         # #[bits(rw, 24..=27)]
+        F("nc", T_u(2), [(28, 1), (30, 1)], array=(2, 1), style="access_first_colon"),   # #[bits(rw, [28, 30], stride: 1)]
+    ])], props=("C03", "C04", "C02", "C01", "C16", "C13", "C09")))
     if tier == "thorough":
         progs.append(Program("ar127", structs=[S("ar127", 127, [
             F("x", T_u(63), (1, 63), array=(2, None)),
@@ -525,6 +533,78 @@ def programs_debug(tier):
     return progs
 
 
+def random_programs(seed, count):
+    """VERIF_SEED-driven layouts (thorough tier): random base, random non-overlapping fields of every kind.
+    Only the layouts depend on the seed; every obligation on them still quantifies over all inputs."""
+    rnd = random.Random(seed * 7919 + 17)
+    progs = []
+    tries = 0
+    while len(progs) < count and tries < count * 20:
+        tries += 1
+        k = len(progs)
+        pid = f"rnd{k}"
+        base = rnd.choice([8, 16, 32, 64, 128, rnd.randint(2, 127), rnd.randint(2, 127)])
+        enums, fields, pos = [], [], rnd.choice([0, 0, 1])
+        while pos < base and len(fields) < 6:
+            room = base - pos
+            kind = rnd.choice(["bool", "u", "u", "u", "i", "arr", "nc", "enum", "arrb"])
+            acc_ = rnd.choice(["rw", "rw", "rw", "r", "w"])
+            nm = f"f{len(fields)}"
+            if kind == "bool":
+                fields.append(F(nm, T_bool(), (pos, 1), access=acc_)); pos += 1
+            elif kind == "u":
+                n = rnd.randint(1, min(room, rnd.choice([3, 8, 17, 64, 128])))
+                fields.append(F(nm, T_u(n), (pos, n), access=acc_)); pos += n
+            elif kind == "i":
+                cands = [n for n in (8, 16, 32, 64) if n <= room]
+                if not cands:
+                    continue
+                n = rnd.choice(cands)
+                fields.append(F(nm, T_i(n), (pos, n), access=acc_)); pos += n
+            elif kind in ("arr", "arrb"):
+                n = 1 if kind == "arrb" else rnd.randint(1, 9)
+                stride = n + rnd.choice([0, 0, 1, 3])
+                kmax = (room - n) // stride + 1 if room >= n else 0
+                if kmax < 2:
+                    continue
+                K = rnd.randint(2, min(kmax, 5))
+                ty = T_bool() if kind == "arrb" else T_u(n)
+                fields.append(F(nm, ty, (pos, n), array=(K, None if stride == n and rnd.random() < 0.5 else stride), access=acc_))
+                pos += (K - 1) * stride + n
+            elif kind == "nc":
+                a, g, b = rnd.randint(1, 4), rnd.randint(1, 3), rnd.randint(1, 4)
+                if a + g + b > room:
+                    continue
+                rs = [(pos, a), (pos + a + g, b)]
+                if rnd.random() < 0.5:
+                    rs.reverse()
+                fields.append(F(nm, T_u(a + b), rs, access=acc_)); pos += a + g + b
+            elif kind == "enum":
+                n = rnd.randint(1, min(3, room))
+                total = 1 << n
+                ex = rnd.random() < 0.4
+                vals = list(range(total)) if ex else sorted(rnd.sample(range(total), rnd.randint(1, total - 1) if total > 1 else 1))
+                if not ex and len(vals) == total:
+                    vals = vals[:-1]
+                rnd.shuffle(vals)
+                e = Enum(f"Ernd{k}x{len(enums)}", n, [(f"V{i}", v) for i, v in enumerate(vals)], exhaustive="true" if ex else None)
+                enums.append(e)
+                fields.append(F(nm, T_enum(e), (pos, n), access=acc_)); pos += n
+            pos += rnd.choice([0, 0, 0, 1, 2])
+        if not fields:
+            continue
+        default = None
+        if rnd.random() < 0.5:
+            default = Default(rnd.getrandbits(base), rnd.choice(["=", ":"]))
+        try:
+            st = S(pid, base, fields, default=default)
+        except AssertionError:
+            continue
+        progs.append(Program(pid, enums=enums, structs=[st],
+                             props=("C01", "C02", "C03", "C04", "C05", "C06", "C08", "C11", "C12", "C13", "C16", "C17", "C14")))
+    return progs
+
+
 def all_programs(tier, seed=0):
     progs = []
     progs += programs_contiguous(tier)
@@ -540,6 +620,8 @@ def all_programs(tier, seed=0):
     progs += programs_access(tier)
     progs += programs_c14(tier)
     progs += programs_debug(tier)
+    if tier == "thorough":
+        progs += random_programs(seed, 40)
     ids = [p.pid for p in progs]
     assert len(ids) == len(set(ids))
     return progs
